@@ -364,7 +364,20 @@ fn gen_define(rng: &mut Rng, k: &Knobs, m: &Model, fault: bool) -> Op {
       }
       _ => Expr::Var(src),
     };
-    return Op::Define { name, mutable, annot: None, e };
+    // a kind annotation on a definition from a variable: the value passes through a conversion
+    // (often to the kind it already has) before it is bound
+    let annot = match (&e, &b.v) {
+      (Expr::Var(_), SV::Mat(ek, r, c, _)) if rng.chance(1, 3) && NK::from_name(ek).is_some() => {
+        let tk = if rng.chance(1, 4) { rng.pick(&["u8", "i64", "f64", "u16"]).to_string() } else { ek.clone() };
+        Some(if rng.chance(1, 2) { format!("[{}]", tk) } else { format!("[{}]:{},{}", tk, r, c) })
+      }
+      (Expr::Var(_), v) if v.is_scalar() && rng.chance(1, 4) => {
+        let k0 = v.kind_tag();
+        if NK::from_name(&k0).is_some() && rng.chance(1, 4) { Some(rng.pick(&["u8", "i64", "f64", "u16"]).to_string()) } else if k0 == "f64" || k0 == "string" || k0 == "bool" || NK::from_name(&k0).is_some() { Some(k0) } else { None }
+      }
+      _ => None,
+    };
+    return Op::Define { name, mutable, annot, e };
   }
   let class = rng.pick(&k.classes).clone();
   if k.functions && choice >= 7 && rng.chance(1, 2) { return Op::Define { name, mutable, annot: None, e: call_source(rng, m) }; }
